@@ -2,3 +2,5 @@ import Model.Basic
 import Model.LinAlg
 import Model.Hull
 import Model.Fit
+import Model.Aff
+import Model.Corrector
